@@ -19,7 +19,7 @@ pub fn spec() -> Spec {
         assumptions: &["symbols are built through build_set/build_sym_using_vs (validated by C02)"],
         bounds: |t| json!({"dim1_max_size": 5, "dim2_max_size": t.pick(4, 5), "dim3_max_size": t.pick(3, 4), "V": [1,2,3],
             "dim2_size6_max_two_branched_orbits": t.is_thorough(), "dim3_size4_V": [1,2],
-            "mid": "class representatives of D-sets from the generator: dim 2 sizes 5-10 [6-12], dim 3 sizes 4-7 [8], dim 1 sizes 6-12 [16]; V = {1,2,3} on <= 1 [2] orbits (dim 1: 2); 9 systematic renumberings each",
+            "mid": "class representatives of D-sets from the generator: dim 2 sizes 5-10 [6-12], dim 3 sizes 4-7 [8], dim 1 sizes 6-12 [16]; V = {1,2,3} on <= 1 [2] orbits (dim 1: 2), plus uniform degrees (m = lcm of orbit lengths), every single orbit doubled, and four assignments with every orbit branched; 9 systematic renumberings each",
             "large": "coset symbols of finite Coxeter groups [3,3] [4,3] [5,3] [2,12] [7,2] [3,3,3] [4,3,3] ([3,4,3] thorough) modulo small subgroups, built by the reference Todd-Coxeter, 8-384 (thorough 1152) chambers, 9 systematic renumberings each"}),
     }
 }
@@ -193,6 +193,16 @@ fn mid_family(ctx: &mut Ctx) {
                     ctx.add("mid_symbols", 1);
                 }
             });
+            // uniform degrees (maximal symmetry: many start chambers tie), single deviations from them, and
+            // assignments in which every orbit is branched
+            for s in structured_assignments(&plain.ops) {
+                let first = s.relabel(&rn[0].1);
+                for (_, p) in &rn {
+                    let t = s.relabel(p);
+                    check_one(ctx, &t, Some(&first), "mid");
+                    ctx.add("mid_symbols", 1);
+                }
+            }
         }
     }
 }
